@@ -7,7 +7,7 @@ _S = int(os.environ.get('VERIF_C14_SCALE', '1'))
 _KINDS = ['what', 'exists', 'numeric', 'string', 'raw', 'message', 'minmatch', 'maxmatch', 'and', 'or', 'nand', 'nor', 'xor', 'childcount', 'nodename']
 _NUMTYPES = ['bool', 'int8', 'int16', 'int32', 'int64', 'float', 'double', 'point', 'rect']
 
-_sem_min = {'pairs': 100000, 'pairs_true': 30000, 'pairs_false': 30000, 'archive_decisions': 100000, 'expr_decisions': 30000, 'expr_printed': 3000,
+_sem_min = {'pairs': 500000, 'pairs_true': 150000, 'pairs_false': 150000, 'archive_decisions': 500000, 'expr_decisions': 200000, 'expr_printed': 20000,
             'trees_deciding_both_ways': 5000, 'pairs_with_datanode': 50000, 'leaf_with_index': 5000, 'leaf_with_assumed_default': 5000,
             'shape_field_missing': 5000, 'shape_wrong_type': 5000, 'shape_fewer_items_than_index': 2000, 'shape_item_equals_operand': 5000, 'shape_item_next_to_operand': 5000,
             'threshold_no_limit': 500, 'threshold_zero': 500, 'threshold_kids_minus_1': 500, 'threshold_above_kids': 500, 'threshold_between': 300,
@@ -47,15 +47,15 @@ SPEC = dict(
                  'g++ 12 ASan/UBSan/LSan and valgrind memcheck report what they claim to report; CPU budget per hostile case 20 CPU-seconds'],
     legs=[
         Leg('regress', 'h_filter', 'asan', opts={'mode': 'regress'}, quick=1, thorough=1, workers=1, leaks=True, min_cases=8),
-        Leg('semantics', 'h_filter', 'asan', opts={'mode': 'semantics'}, quick=160000 * _S, thorough=8000000, workers=16, leaks=True),
-        Leg('hostile', 'h_filter', 'asan', opts={'mode': 'hostile'}, quick=64000 * _S, thorough=3200000, workers=16, leaks=True, cpu_budget=20.0),
-        Leg('memcheck', 'h_filter', 'plain', opts={'mode': 'semantics'}, quick=3200 * _S, thorough=160000, workers=16, valgrind=True),
-        Leg('memcheck_hostile', 'h_filter', 'plain', opts={'mode': 'hostile'}, quick=1280 * _S, thorough=64000, workers=16, valgrind=True, cpu_budget=20.0),
+        Leg('semantics', 'h_filter', 'asan', opts={'mode': 'semantics'}, quick=100000 * _S, thorough=6000000, workers=16, leaks=True),
+        Leg('hostile', 'h_filter', 'asan', opts={'mode': 'hostile'}, quick=50000 * _S, thorough=3000000, workers=16, leaks=True, cpu_budget=20.0),
+        Leg('memcheck', 'h_filter', 'plain', opts={'mode': 'semantics'}, quick=2000 * _S, thorough=120000, workers=16, valgrind=True),
+        Leg('memcheck_hostile', 'h_filter', 'plain', opts={'mode': 'hostile'}, quick=800 * _S, thorough=48000, workers=16, valgrind=True, cpu_budget=20.0),
     ],
     min_stats={'regress': {'regress_checks': 10000, 'regress_rows': 50},
                'semantics': _sem_min,
-               'hostile': {'mutated_archives': 20000, 'mutated_archives_instantiated': 10000, 'mutated_archives_rejected': 2000, 'extreme_many_children': 50, 'extreme_deep_nesting': 200,
-                           'extreme_archives_instantiated': 200, 'max_hostile_children': 10000, 'max_hostile_nesting': 2000, 'token_soups': 10000, 'hostile_expressions_parsed': 500,
+               'hostile': {'mutated_archives': 15000, 'mutated_archives_instantiated': 10000, 'mutated_archives_rejected': 2000, 'extreme_many_children': 40, 'extreme_deep_nesting': 150,
+                           'extreme_archives_instantiated': 150, 'max_hostile_children': 10000, 'max_hostile_nesting': 2000, 'token_soups': 10000, 'hostile_expressions_parsed': 500,
                            'deep_expressions': 1000, 'max_expression_nesting': 2000, 'hostile_evaluations_true': 50000, 'hostile_evaluations_false': 50000},
                'memcheck': {'pairs': 10000, 'archive_decisions': 10000, 'expr_decisions': 2000}},
 )
